@@ -9,7 +9,7 @@ use blsful::inner_types::{Field, Group};
 use blsful::*;
 use serde_json::json;
 
-pub const RULE: &str = "recipient keys (random) x plaintext scalars from E (1,2,3,r-1,r-2,2^254,...,random) x 2 groups: decrypt(sk) must equal m*H where H is recomputed by the reference as hash_to_curve(compress(P), ENC_DST) in the key group; the library's message_generator() must equal the reference's bytes. Sums of k in {2,3,16} ciphertexts through every Add / AddAssign impl (6) must decrypt to (sum m_i)*H, for five plaintext patterns: random, wrapping around r, cancelling to zero (the sum decrypts to the identity), 1 + (r-1) + cancelling rest, summing to one. All workloads run in the release and in the checked (debug assertions + overflow checks) build. Decryption shares built with the public public_key_share_with_generator(share, c1) for every (t,n) with n<=4 (quick) / n<=5 (thorough): every subset in ascending, reversed and shuffled order; >=t must decrypt to m*H via ElGamalDecryptionKey::from_shares, <t must not. Proofs: verify(pk), verify_and_decrypt(sk)==m*H, the reference verifier accepts the library's proof and reproduces its challenge from the merlin transcript, the library accepts a reference-built proof; perturbations that must be rejected: c1+G, c2+G, c1<->c2, each of the 3 scalars +1, challenge of another proof, ciphertext of another proof, other pk, -pk, pk+G; verify_and_decrypt with a non-matching key. Distinct by (suite,kind,inputs).";
+pub const RULE: &str = "recipient keys (random) x plaintext scalars from E (1,2,3,r-1,r-2,2^254,...,random) x 2 groups: decrypt(sk) must equal m*H where H is recomputed by the reference as hash_to_curve(compress(P), ENC_DST) in the key group; the library's message_generator() must equal the reference's bytes. Sums of k in {2,3,16} ciphertexts through every Add / AddAssign impl (6) must decrypt to (sum m_i)*H, for five plaintext patterns: random, wrapping around r, cancelling to zero (the sum decrypts to the identity), 1 + (r-1) + cancelling rest, summing to one. All workloads run in the release and in the checked (debug assertions + overflow checks) build. Decryption shares built with the public public_key_share_with_generator(share, c1) for every (t,n) with n<=4 (quick) / n<=5 (thorough): every subset in ascending, reversed and shuffled order; >=t must decrypt to m*H via ElGamalDecryptionKey::from_shares, <t must not. Proofs: verify(pk), verify_and_decrypt(sk)==m*H, the reference verifier accepts the library's proof and reproduces its challenge from the merlin transcript, the library accepts a reference-built proof; perturbations that must be rejected: c1+G, c2+G, c1<->c2, each of the 3 scalars +1, challenge of another proof, ciphertext of another proof, other pk, -pk, pk+G; verify_and_decrypt with a non-matching key. History clusters (2 quick / 8 thorough per group): two proofs for one recipient and six single-component variants through verify / verify under another key / verify_and_decrypt / verify_and_decrypt with another key, plus decrypt, asked in every ordered pair (a,b) as a,b,b,a; every answer must equal the answer the question has on its own. Distinct by (suite,kind,inputs).";
 
 pub fn run(ctx: &mut Ctx) {
     for_both!(run_suite, ctx);
@@ -51,6 +51,14 @@ fn run_suite<C: Suite>(ctx: &mut Ctx) {
                 continue;
             }
             sums::<C>(ctx, g, k, rep);
+        }
+    }
+    // history clusters
+    ctx.require(&format!("{n}/history"));
+    for i in 0..ctx.tier.pick(2, 8) {
+        g += 1;
+        if ctx.mine(g) {
+            history_cluster::<C>(ctx, g, i);
         }
     }
     // decryption shares
@@ -331,4 +339,46 @@ fn shares<C: Suite>(ctx: &mut Ctx, g: u64, t: usize, nn: usize) {
             ctx.hit(&format!("{n}/shares/<t"), &[&[t as u8, nn as u8], &fpd, &want]);
         }
     }
+}
+
+/// Two recipient keys, two proofs for the first: verify / verify_and_decrypt / decrypt of the
+/// honest proofs and of single-component variants, asked in every ordered pair as a, b, b, a.
+fn history_cluster<C: Suite>(ctx: &mut Ctx, g: u64, i: usize) {
+    use super::history::{q, sandwiches, Q};
+    let mut rng = ctx.rng(g);
+    let n = C::NAME;
+    let k = gen::random_scalar(&mut rng);
+    let sk = sk_from_rs::<C>(&k);
+    let pk = sk.public_key();
+    let sk2 = sk_from_rs::<C>(&gen::random_scalar(&mut rng));
+    let pk2 = sk2.public_key();
+    let m = match i % 4 { 0 => gen::random_scalar(&mut rng), 1 => RS::ONE, 2 => -RS::ONE, _ => gen::random_scalar(&mut rng) };
+    let msk = sk_from_rs::<C>(&m);
+    let want = hm::<C>(&m);
+    let (Ok(p1), Ok(p2)) = (pk.encrypt_key_el_gamal_with_proof(&msk), pk.encrypt_key_el_gamal_with_proof(&msk)) else { return };
+    type A = Option<Vec<u8>>;
+    let verdict = |b: bool| -> A { Some(vec![b as u8]) };
+    let one = <Sc<C> as Field>::ONE;
+    let gpk = <PkPt<C> as Group>::generator();
+    let mut variants: Vec<(String, bool, ElGamalProof<C>)> = vec![("honest-1".into(), true, p1), ("honest-2".into(), true, p2)];
+    let mut p = p1; p.ciphertext.c1 += gpk; variants.push(("c1+G".into(), false, p));
+    let mut p = p1; p.ciphertext.c2 += gpk; variants.push(("c2+G".into(), false, p));
+    let mut p = p1; p.message_proof += one; variants.push(("message_proof+1".into(), false, p));
+    let mut p = p1; p.blinder_proof += one; variants.push(("blinder_proof+1".into(), false, p));
+    let mut p = p1; p.challenge = p2.challenge; variants.push(("challenge-of-2".into(), false, p));
+    let mut p = p1; p.ciphertext = p2.ciphertext; variants.push(("ciphertext-of-2".into(), false, p));
+    let mut qs: Vec<Q<A>> = Vec::new();
+    let (skr, sk2r) = (&sk, &sk2);
+    for (vn, ok, p) in variants {
+        qs.push(q(format!("{vn}/verify"), verdict(ok), move || verdict(p.verify(pk).is_ok())));
+        qs.push(q(format!("{vn}/verify-other-key"), verdict(false), move || verdict(p.verify(pk2).is_ok())));
+        qs.push(q(format!("{vn}/verify_and_decrypt"), if ok { Some(want.clone()) } else { None }, move || p.verify_and_decrypt(skr).ok().map(|x| enc_pt(&x))));
+        qs.push(q(format!("{vn}/verify_and_decrypt-other-key"), None, move || p.verify_and_decrypt(sk2r).ok().map(|x| enc_pt(&x))));
+    }
+    let ct = p1.ciphertext;
+    qs.push(q("honest-1/decrypt".to_string(), Some(want.clone()), move || Some(enc_pt(&ct.decrypt(skr)))));
+    let d = || json!({"suite":n,"sk":hex::encode(k.to_be_bytes()),"m":hex::encode(m.to_be_bytes()),"note":"verdicts answer [1]/[0]; decrypt questions answer the point or null"});
+    let mut cid = k.to_be_bytes().to_vec();
+    cid.extend_from_slice(&m.to_be_bytes());
+    sandwiches(ctx, "C14", &format!("{n}/history"), "proof-variants", &cid, &d, &qs);
 }
